@@ -100,11 +100,6 @@ func (inv *execInvocation) GobDecode(p []byte) error {
 			return fmt.Errorf("decoding %s: %v", field.name, err)
 		}
 	}
-	// A decoded environment is the result of the sender's compilation: it
-	// is read-only here, so that this process compiles the same task graph.
-	// (The tasks that carry the invocation were copied before the driver
-	// froze its own environment.)
-	inv.Env.Freeze()
 	fv := bigslice.FuncByIndex(inv.Func)
 	inv.Args = make([]interface{}, fv.NumIn())
 	for i := range inv.Args {
